@@ -658,6 +658,33 @@ func (obsWorld) Exec(prop string, t *Trace) *Result {
 					}
 				}()
 			}
+			if l.claims != nil && (op.S == "ser.cbor" || op.S == "ser.json") {
+				// keep the very slice the embedding-aware serialiser (or the claims' own marshaler, which
+				// is what extension profiles delegate to it) hands out
+				func() {
+					defer func() { _ = recover() }()
+					var b []byte
+					var err error
+					switch {
+					case op.S == "ser.cbor" && i%2 == 0:
+						b, err = encoding.SerializeStructToCBOR(xem, l.claims)
+					case op.S == "ser.cbor":
+						if m, ok := l.claims.(interface{ MarshalCBOR() ([]byte, error) }); ok {
+							b, err = m.MarshalCBOR()
+						}
+					case i%2 == 0:
+						b, err = encoding.SerializeStructToJSON(l.claims)
+					default:
+						if m, ok := l.claims.(interface{ MarshalJSON() ([]byte, error) }); ok {
+							b, err = m.MarshalJSON()
+						}
+					}
+					if err == nil && len(b) > 0 {
+						heldEnc = append(heldEnc, heldBytes{ret: b, snap: append([]byte{}, b...), at: i, what: op.S + " (direct)"})
+						res.Probes["held_encodings"]++
+					}
+				}()
+			}
 			if l.claims != nil && (op.S == "enc.cbor" || op.S == "enc.json" || op.S == "venc.cbor" || op.S == "venc.json") {
 				// keep the very slice an encoder hands out
 				func() {
